@@ -9,8 +9,9 @@ Transcribed from `src/editor/mod.rs` (stacks, `push_undo_action`, `push_plain_un
 A layer keeps its raw row storage `lines` next to its `size`: content beyond the size survives (hidden), rows and cells
 that were never written are absent.  Everything is total; a Rust panic (index out of range, `usize` underflow,
 `Vec::resize` with a negative length) is the explicit outcome `Err.panic`, an `Err(..)` return is `Err.err`.
-Not modelled: layer title/role/mode/colour, `default_font_page` (0), sixels, hyperlinks, the selection mask,
-palette, fonts, SAUCE, ice/palette/font modes and the records that touch them. -/
+The font table is a map slot → font identity (the glyph data is payload), the palette a list of 0xRRGGBB colours, the
+SAUCE record an identity; the selection mask and the caret (position, font page) are editor state outside the document.
+Not modelled: layer mode/colour/transparency, `default_font_page` (0), preview offsets, sixels, hyperlinks. -/
 namespace IcyVerif.Undo
 open IcyVerif.Gen.Undo
 
@@ -46,6 +47,11 @@ structure Props where
   alphaLocked : Bool
   offX : Int
   offY : Int
+  /-- `properties.title` -/
+  title : String
+  /-- `Layer::role` (0 Normal, 1 PastePreview, 2 PasteImage, 3 Image); not part of the Rust `Properties`: the
+      `UpdateLayerProperties` record leaves it alone -/
+  role : Nat
 deriving DecidableEq, Repr
 
 structure LayerM where
@@ -107,14 +113,23 @@ def LayerM.setChar (l : LayerM) (x y : Int) (c : Cell) : LayerM :=
     if l.props.hasAlpha && l.props.alphaLocked && !(rowsGet lines x.toNat y.toNat).isVisible then { l with lines := lines }
     else { l with lines := lines.set y.toNat ((lines.getD y.toNat []).setCell x.toNat c) }
 
-/-- `Layer::swap_char` (after `fix: Layer::swap_char with a position outside the layer…`) -/
+/-- `Layer::restore_char` (`fix: undo restores recorded cells directly…`): `set_char` without the lock tests -/
+def LayerM.restoreChar (l : LayerM) (x y : Int) (c : Cell) : LayerM :=
+  if !l.inside x y then l
+  else
+    let lines := growTo l.lines (y.toNat + 1) (List.replicate l.w.toNat Cell.invisible)
+    { l with lines := lines.set y.toNat ((lines.getD y.toNat []).setCell x.toNat c) }
+
+/-- `Layer::swap_char` (after `fix: Layer::swap_char with a position outside the layer…` and `fix: Layer::swap_char on an
+    alpha-locked layer swaps only two visible cells…`) -/
 def LayerM.swapChar (l : LayerM) (x1 y1 x2 y2 : Int) : LayerM :=
   if !l.inside x1 y1 || !l.inside x2 y2 then l
+  else if l.props.hasAlpha && l.props.alphaLocked && !((l.getChar x1 y1).isVisible && (l.getChar x2 y2).isVisible) then l
   else
     let tmp := l.getChar x1 y1
     (l.setChar x1 y1 (l.getChar x2 y2)).setChar x2 y2 tmp
 
-def defaultProps : Props := ⟨true, false, false, false, false, 0, 0⟩
+def defaultProps : Props := ⟨true, false, false, false, false, 0, 0, "", 0⟩
 
 /-- `Layer::new(_, (w, h))`; a negative size makes `Vec::resize`/`Line::create` panic (capacity overflow) -/
 def newLayer (w h : Int) : Except Err LayerM :=
@@ -130,10 +145,10 @@ def fromLayer (l : LayerM) (area : Rect) : Except Err LayerM :=
   | .ok r => .ok ((intRange area.y area.bottom).foldl (fun r y =>
       (intRange area.x area.right).foldl (fun r x => r.setChar (x - area.x) (y - area.y) (l.getChar x y)) r) r)
 
-/-- `Layer::stamp(target_pos, layer)` -/
+/-- `Layer::stamp(target_pos, layer)` (writes with `restore_char`) -/
 def LayerM.stamp (l : LayerM) (tx ty : Int) (src : LayerM) : LayerM :=
   (intRange src.rect.y src.rect.bottom).foldl (fun l y =>
-    (intRange src.rect.x src.rect.right).foldl (fun l x => l.setChar (x + tx) (y + ty) (src.getChar x y)) l) l
+    (intRange src.rect.x src.rect.right).foldl (fun l x => l.restoreChar (x + tx) (y + ty) (src.getChar x y)) l) l
 
 /-- `Layer::set_offset` -/
 def LayerM.setOffset (l : LayerM) (x y : Int) : LayerM :=
@@ -141,17 +156,86 @@ def LayerM.setOffset (l : LayerM) (x y : Int) : LayerM :=
 
 /-! ## document -/
 
+/-- `Selection` made from a rectangle: anchor = `(r.x, r.y)`, lead = `(r.x + r.w, r.y + r.h)` -/
+structure Sel where
+  r : Rect
+  /-- `AddType`: 0 Default, 1 Add, 2 Subtract -/
+  addType : Nat
+  /-- `Shape::Lines` (otherwise `Shape::Rectangle`) -/
+  lines : Bool
+deriving DecidableEq, Repr
+
+/-- `Selection::as_rectangle` -/
+def Sel.asRect (s : Sel) : Rect := s.r.asSelRect
+
+/-- `SelectionMask` / `OverlayMask` -/
+structure Mask where
+  w : Int
+  h : Int
+  lines : List (List Bool)
+deriving DecidableEq, Repr
+
+def Mask.inBounds (m : Mask) (x y : Int) : Bool := 0 ≤ x && x < m.w && 0 ≤ y && y < m.h
+/-- `OverlayMask::get_is_selected` -/
+def Mask.get (m : Mask) (x y : Int) : Bool :=
+  if m.inBounds x y then (m.lines.getD y.toNat []).getD x.toNat false else false
+/-- `OverlayMask::set_is_selected` -/
+def Mask.set (m : Mask) (x y : Int) (b : Bool) : Mask :=
+  if !m.inBounds x y then m
+  else
+    let lines := growTo m.lines (y.toNat + 1) []
+    let row := growTo (lines.getD y.toNat []) (x.toNat + 1) false
+    { m with lines := lines.set y.toNat (row.set x.toNat b) }
+/-- `add_rectangle` / `remove_rectangle`.  The Rust loops run over the whole rectangle and `set_is_selected` ignores
+    positions outside the mask; the model iterates over the part inside the mask only (same calls that have an effect, in
+    the same order) -/
+def Mask.fillRect (m : Mask) (r : Rect) (b : Bool) : Mask :=
+  (intRange (max r.y 0) (min r.bottom m.h)).foldl (fun m y =>
+    (intRange (max r.x 0) (min r.right m.w)).foldl (fun m x => m.set x y b) m) m
+/-- `OverlayMask::is_empty` -/
+def Mask.isEmpty (m : Mask) : Bool := m.lines.all fun l => !l.contains true
+/-- `OverlayMask::clear` -/
+def Mask.clear (m : Mask) : Mask := { m with lines := [] }
+
+/-- the font table as an association list slot → font identity -/
+def fmLookup (m : List (Nat × Nat)) (k : Nat) : Option Nat := (m.find? (·.1 == k)).map (·.2)
+/-- `HashMap::remove` -/
+def fmRemove (m : List (Nat × Nat)) (k : Nat) : List (Nat × Nat) := m.filter (·.1 != k)
+/-- `HashMap::insert` -/
+def fmInsert (m : List (Nat × Nat)) (k v : Nat) : List (Nat × Nat) := (k, v) :: fmRemove m k
+
+/-- the parts of the `Buffer` besides size and layers -/
+structure Extra where
+  /-- `font_table` -/
+  fonts : List (Nat × Nat)
+  /-- `font_mode`: 0 Sauce, 1 Single, 2 Unlimited, 3 FixedSize -/
+  fontMode : Nat
+  /-- `palette.colors` as 0xRRGGBB -/
+  palette : List Nat
+  /-- `palette_mode`: 0 RGB, 1 Fixed16, 2 Free8, 3 Free16 -/
+  paletteMode : Nat
+  /-- `ice_mode`: 0 Unlimited, 1 Blink, 2 Ice -/
+  iceMode : Nat
+  /-- `sauce_data` (identity of the record) -/
+  sauce : Option Nat
+deriving DecidableEq, Repr
+
 structure Doc where
   w : Int
   h : Int
   layers : List LayerM
-  /-- `selection_opt` (rectangle selections only) -/
-  sel : Option Rect
+  /-- `selection_opt` -/
+  sel : Option Sel
   caretX : Int
   caretY : Int
   /-- `current_layer`, NOT clamped -/
   cur : Nat
   mirror : Bool
+  x : Extra
+  /-- `selection_mask` -/
+  mask : Mask
+  /-- `caret.font_page` -/
+  fontPage : Nat
 deriving Repr
 
 def Doc.setLayer (d : Doc) (i : Nat) (l : LayerM) : Doc := { d with layers := d.layers.set i l }
@@ -159,6 +243,16 @@ def Doc.setLayer (d : Doc) (i : Nat) (l : LayerM) : Doc := { d with layers := d.
 def Doc.clampCur (d : Doc) : Doc := { d with cur := min d.cur (d.layers.length - 1) }
 /-- `get_current_layer` -/
 def Doc.currentLayer (d : Doc) : Option Nat := if d.layers.length > 0 then some (min d.cur (d.layers.length - 1)) else none
+/-- `set_mask_size` -/
+def Doc.setMaskSize (d : Doc) : Doc := { d with mask := { d.mask with w := d.w, h := d.h } }
+def Doc.setFonts (d : Doc) (f : List (Nat × Nat)) : Doc := { d with x := { d.x with fonts := f } }
+/-- `is_something_selected` -/
+def Doc.somethingSelected (d : Doc) : Bool := d.sel.isSome || !d.mask.isEmpty
+/-- `get_is_selected` -/
+def Doc.isSelected (d : Doc) (x y : Int) : Bool :=
+  match d.sel with
+  | some s => if s.asRect.isInside x y then s.addType != 2 else d.mask.get x y
+  | none => d.mask.get x y
 
 /-! ## undo records -/
 
@@ -182,9 +276,29 @@ inductive UndoOp
   | scrollUp (layer : Nat)
   | scrollDown (layer : Nat)
   | clearLayer (index : Nat) (lines : List Row)
-  | setSelection (old new : Option Rect)
-  | selectNothing (sel : Option Rect)
-  | deselect (sel : Rect)
+  | setSelection (old new : Option Sel)
+  | selectNothing (sel : Option Sel) (mask : Mask)
+  | deselect (sel : Sel)
+  | mergeLayerDown (index : Nat) (merged : Option LayerM) (orig : Option (List LayerM))
+  | paste (cur : Nat) (layer : Option LayerM)
+  | addFloatingLayer (cur : Nat)
+  | rotateLayer (layer : Nat) (old new : List Row)
+  | updateLayerProps (index : Nat) (old new : Props)
+  | setSelectionMask (old new : Mask)
+  | addSelectionToMask (old : Mask) (sel : Sel)
+  | inverseSelection (sel : Option Sel) (old new : Mask)
+  | switchPalettte (pal : List Nat)
+  | setSauceData (data : Option Nat)
+  | switchToFontPage (old new : Nat)
+  | setFont (page old new : Nat)
+  | addFont (oldPage newPage font : Nat) (replaced : Option Nat)
+  | removeFont (slot : Nat) (font : Option Nat)
+  | changeFontSlot (src dst : Nat) (replaced : Option Nat)
+  | replaceFontUsage (oldPage : Nat) (oldLayers : List LayerM) (newPage : Nat) (newLayers : List LayerM)
+  | switchPalette (oldMode : Nat) (oldPal : List Nat) (oldLayers : List LayerM) (newMode : Nat) (newPal : List Nat) (newLayers : List LayerM)
+  | setIceMode (oldMode : Nat) (oldLayers : List LayerM) (newMode : Nat) (newLayers : List LayerM)
+  | reverseCaret (px py ox oy : Int)
+  | reversed (op : UndoOp)
   | atomic (ops : List UndoOp)
 
 abbrev Res := Except Err (UndoOp × Doc)
@@ -200,6 +314,12 @@ def onLayerIdx (d : Doc) (i : Nat) (op : UndoOp) (f : LayerM → LayerM) : Res :
   match d.layers[i]? with
   | some l => .ok (op, d.setLayer i (f l))
   | none => .error .panic
+
+/-- `if let Some(layer) = layers.get_mut(i) { f }; Ok(())` -/
+def onLayerOpt (d : Doc) (i : Nat) (op : UndoOp) (f : LayerM → LayerM) : Res :=
+  match d.layers[i]? with
+  | some l => .ok (op, d.setLayer i (f l))
+  | none => .ok (op, d)
 
 /-- `column as usize` of a negative `i32` is larger than any row -/
 def colIdx (col : Int) : Option Nat := if col < 0 then none else some col.toNat
@@ -251,14 +371,23 @@ def insertColumnUndo (l : LayerM) (col : Int) : LayerM :=
   | none => { l with w := l.w - 1 }
   | some o => { l with lines := l.lines.map (fun r => if r.length > o then r.eraseIdx o else r), w := l.w - 1 }
 
-/-- `UndoLayerChange::undo/redo` with the snapshot `chars` -/
-def layerChangeApply (l : LayerM) (px py : Int) (chars : LayerM) : LayerM :=
-  if l.w = chars.w ∧ l.h = chars.h then { l with lines := chars.lines } else l.stamp px py chars
+/-- `UndoLayerChange::undo/redo` with the snapshot `chars` (after `fix: UndoLayerChange always stamps its snapshot…`) -/
+def layerChangeApply (l : LayerM) (px py : Int) (chars : LayerM) : LayerM := l.stamp px py chars
 
 def listSwap {α : Type} (l : List α) (i j : Nat) : Option (List α) :=
   match l[i]?, l[j]? with
   | some a, some b => some ((l.set i b).set j a)
   | _, _ => none
+
+/-- `AddSelectionToMask::redo` for rectangle selections (`Shape::Lines` walks the positions between anchor and lead:
+    not interpreted, the driver never sends such a history to the model) -/
+def Mask.addSel (m : Mask) (s : Sel) : Mask := m.fillRect s.asRect (s.addType != 2)
+
+/-- `AddFloatingLayer::redo` / `undo` on the layer -/
+def floatRedo (l : LayerM) : LayerM :=
+  { l with props := { l.props with role := if l.props.role = 2 then 3 else 0, title := layerNewName } }
+def floatUndo (l : LayerM) : LayerM :=
+  { l with props := { l.props with role := if l.props.role = 3 then 2 else 1, title := layerPastedName } }
 
 mutual
 /-- `UndoOperation::redo` -/
@@ -289,9 +418,9 @@ def UndoOp.redo : UndoOp → Doc → Res
     match d.layers[idx]? with
     | some l => .ok (.setLayerSize idx l.w l.h tw th, d.setLayer idx { l with w := tw, h := th })
     | none => .error .err
-  | .resizeBuffer ow oh w h, d => .ok (.resizeBuffer ow oh w h, { d with w := w, h := h })
+  | .resizeBuffer ow oh w h, d => .ok (.resizeBuffer ow oh w h, ({ d with w := w, h := h } : Doc).setMaskSize)
   | .layerChange i px py old new, d => onLayer d i (.layerChange i px py old new) (layerChangeApply · px py new)
-  | .crop ow oh w h layers, d => .ok (.crop ow oh w h d.layers, { d with w := w, h := h, layers := layers })
+  | .crop ow oh w h layers, d => .ok (.crop ow oh w h d.layers, ({ d with w := w, h := h, layers := layers } : Doc).setMaskSize)
   | .deleteRow i line _, d =>
     match d.layers[i]? with
     | none => .error .err
@@ -319,8 +448,55 @@ def UndoOp.redo : UndoOp → Doc → Res
     | some l => .ok (.clearLayer idx l.lines, d.setLayer idx { l with lines := lines })
     | none => .error .err
   | .setSelection old new, d => .ok (.setSelection old new, { d with sel := new })
-  | .selectNothing sel, d => .ok (.selectNothing sel, { d with sel := none })
+  | .selectNothing sel mask, d => .ok (.selectNothing sel mask, { d with sel := none, mask := d.mask.clear })
   | .deselect sel, d => .ok (.deselect sel, { d with sel := none })
+  -- `drain((index - 1)..=index)`: `index - 1` underflows for 0, the range must lie inside the vector
+  | .mergeLayerDown idx merged _, d =>
+    match merged with
+    | none => .error .err
+    | some m =>
+      if idx = 0 ∨ idx ≥ d.layers.length then .error .panic
+      else
+        let orig := (d.layers.drop (idx - 1)).take 2
+        let layers := d.layers.take (idx - 1) ++ m :: d.layers.drop (idx + 1)
+        .ok (.mergeLayerDown idx none (some orig), { d with layers := layers, cur := min (idx - 1) (layers.length - 1) })
+  | .paste cur layer, d =>
+    match layer with
+    | none => .error .err
+    | some l => if cur + 1 ≤ d.layers.length then .ok (.paste cur none, { d with layers := d.layers.insertIdx (cur + 1) l }) else .error .panic
+  | .addFloatingLayer cur, d => onLayerOpt d cur (.addFloatingLayer cur) floatRedo
+  | .rotateLayer i old new, d => onLayerOpt d i (.rotateLayer i old new) (fun l => { l with w := l.h, h := l.w, lines := new })
+  | .updateLayerProps idx old new, d =>
+    onLayer d idx (.updateLayerProps idx old new) (fun l => { l with props := { new with role := l.props.role } })
+  | .setSelectionMask old new, d => .ok (.setSelectionMask old new, { d with mask := new })
+  | .addSelectionToMask old sel, d => .ok (.addSelectionToMask old sel, { d with mask := d.mask.addSel sel })
+  | .inverseSelection sel old new, d => .ok (.inverseSelection sel old new, { d with sel := none, mask := new })
+  | .switchPalettte pal, d => .ok (.switchPalettte d.x.palette, { d with x := { d.x with palette := pal } })
+  | .setSauceData data, d => .ok (.setSauceData d.x.sauce, { d with x := { d.x with sauce := data } })
+  | .switchToFontPage old new, d => .ok (.switchToFontPage old new, { d with fontPage := new })
+  | .setFont page old new, d => .ok (.setFont page old new, d.setFonts (fmInsert d.x.fonts page new))
+  | .addFont oldPage newPage font _, d =>
+    .ok (.addFont oldPage newPage font (fmLookup d.x.fonts newPage),
+      { d.setFonts (fmInsert (fmRemove d.x.fonts newPage) newPage font) with fontPage := newPage })
+  | .removeFont slot _, d =>
+    match fmLookup d.x.fonts slot with
+    | some f => .ok (.removeFont slot (some f), d.setFonts (fmRemove d.x.fonts slot))
+    | none => .error .err
+  | .changeFontSlot src dst _, d =>
+    match fmLookup d.x.fonts src with
+    | none => .error .err
+    | some f =>
+      let f1 := fmRemove d.x.fonts src
+      .ok (.changeFontSlot src dst (fmLookup f1 dst), d.setFonts (fmInsert (fmRemove f1 dst) dst f))
+  | .replaceFontUsage op ol np nl, d => .ok (.replaceFontUsage op ol np nl, { d with layers := nl, fontPage := np })
+  | .switchPalette om opal ol nm npal nl, d =>
+    .ok (.switchPalette om opal ol nm npal nl, { d with layers := nl, x := { d.x with palette := npal, paletteMode := nm } })
+  | .setIceMode om ol nm nl, d => .ok (.setIceMode om ol nm nl, { d with layers := nl, x := { d.x with iceMode := nm } })
+  | .reverseCaret px py ox oy, d => .ok (.reverseCaret px py ox oy, { d with caretX := ox, caretY := oy })
+  | .reversed op, d =>
+    match op.undo d with
+    | .ok (op', d') => .ok (.reversed op', d')
+    | .error e => .error e
   | .atomic ops, d =>
     match redoList ops d with
     | .ok (ops', d') => .ok (.atomic ops', d')
@@ -335,12 +511,9 @@ def redoList : List UndoOp → Doc → Except Err (List UndoOp × Doc)
       match redoList rest d1 with
       | .error e => .error e
       | .ok (rest', d2) => .ok (op' :: rest', d2)
-end
-
-mutual
 /-- `UndoOperation::undo` -/
 def UndoOp.undo : UndoOp → Doc → Res
-  | .setChar x y i old new, d => onLayerIdx d i (.setChar x y i old new) (·.setChar x y old)
+  | .setChar x y i old new, d => onLayerIdx d i (.setChar x y i old new) (·.restoreChar x y old)
   | .swapChar i x1 y1 x2 y2, d => onLayerIdx d i (.swapChar i x1 y1 x2 y2) (·.swapChar x1 y1 x2 y2)
   | .addLayer idx _, d =>
     match d.layers[idx]? with
@@ -363,9 +536,9 @@ def UndoOp.undo : UndoOp → Doc → Res
     onLayer d idx (.toggleVisibility idx) (fun l => { l with props := { l.props with visible := !l.props.visible } })
   | .moveLayer idx fx fy tx ty, d => onLayer d idx (.moveLayer idx fx fy tx ty) (·.setOffset fx fy)
   | .setLayerSize idx fw fh tw th, d => onLayer d idx (.setLayerSize idx fw fh tw th) (fun l => { l with w := fw, h := fh })
-  | .resizeBuffer ow oh w h, d => .ok (.resizeBuffer ow oh w h, { d with w := ow, h := oh })
+  | .resizeBuffer ow oh w h, d => .ok (.resizeBuffer ow oh w h, ({ d with w := ow, h := oh } : Doc).setMaskSize)
   | .layerChange i px py old new, d => onLayer d i (.layerChange i px py old new) (layerChangeApply · px py old)
-  | .crop ow oh w h layers, d => .ok (.crop ow oh w h d.layers, { d with w := ow, h := oh, layers := layers })
+  | .crop ow oh w h layers, d => .ok (.crop ow oh w h d.layers, ({ d with w := ow, h := oh, layers := layers } : Doc).setMaskSize)
   | .deleteRow i line row, d =>
     match d.layers[i]? with
     | none => .error .err
@@ -390,8 +563,64 @@ def UndoOp.undo : UndoOp → Doc → Res
     | some l => .ok (.clearLayer idx l.lines, d.setLayer idx { l with lines := lines })
     | none => .error .err
   | .setSelection old new, d => .ok (.setSelection old new, { d with sel := old })
-  | .selectNothing sel, d => .ok (.selectNothing sel, { d with sel := sel })
+  | .selectNothing sel mask, d => .ok (.selectNothing sel mask, { d with sel := sel, mask := mask })
   | .deselect sel, d => .ok (.deselect sel, { d with sel := some sel })
+  -- `while let Some(layer) = orig.pop() { insert(index - 1, layer) }`, then `remove(index + 1)`
+  | .mergeLayerDown idx _ orig, d =>
+    match orig with
+    | none => .error .err
+    | some os =>
+      if os ≠ [] ∧ (idx = 0 ∨ idx - 1 > d.layers.length) then .error .panic
+      else
+        let layers := d.layers.take (idx - 1) ++ os ++ d.layers.drop (idx - 1)
+        match layers[idx + 1]? with
+        | none => .error .panic
+        | some m =>
+          let layers' := layers.eraseIdx (idx + 1)
+          .ok (.mergeLayerDown idx (some m) none, { d with layers := layers', cur := min idx (layers'.length - 1) })
+  | .paste cur _, d =>
+    match d.layers[cur + 1]? with
+    | some l => .ok (.paste cur (some l), { d with layers := d.layers.eraseIdx (cur + 1) })
+    | none => .error .panic
+  | .addFloatingLayer cur, d => onLayerOpt d cur (.addFloatingLayer cur) floatUndo
+  | .rotateLayer i old new, d => onLayerOpt d i (.rotateLayer i old new) (fun l => { l with w := l.h, h := l.w, lines := old })
+  | .updateLayerProps idx old new, d =>
+    onLayer d idx (.updateLayerProps idx old new) (fun l => { l with props := { old with role := l.props.role } })
+  | .setSelectionMask old new, d => .ok (.setSelectionMask old new, { d with mask := old })
+  | .addSelectionToMask old sel, d => .ok (.addSelectionToMask old sel, { d with mask := old })
+  | .inverseSelection sel old new, d => .ok (.inverseSelection sel old new, { d with sel := sel, mask := old })
+  | .switchPalettte pal, d => .ok (.switchPalettte d.x.palette, { d with x := { d.x with palette := pal } })
+  | .setSauceData data, d => .ok (.setSauceData d.x.sauce, { d with x := { d.x with sauce := data } })
+  | .switchToFontPage old new, d => .ok (.switchToFontPage old new, { d with fontPage := old })
+  | .setFont page old new, d => .ok (.setFont page old new, d.setFonts (fmInsert d.x.fonts page old))
+  | .addFont oldPage newPage font replaced, d =>
+    let f1 := fmRemove d.x.fonts newPage
+    let f2 := match replaced with
+      | some f => fmInsert f1 newPage f
+      | none => f1
+    .ok (.addFont oldPage newPage font none, { d.setFonts f2 with fontPage := oldPage })
+  | .removeFont slot font, d =>
+    match font with
+    | some f => .ok (.removeFont slot none, d.setFonts (fmInsert d.x.fonts slot f))
+    | none => .error .err
+  | .changeFontSlot src dst replaced, d =>
+    match fmLookup d.x.fonts dst with
+    | none => .error .err
+    | some f =>
+      let f1 := fmInsert (fmRemove d.x.fonts dst) src f
+      let f2 := match replaced with
+        | some g => fmInsert f1 dst g
+        | none => f1
+      .ok (.changeFontSlot src dst none, d.setFonts f2)
+  | .replaceFontUsage op ol np nl, d => .ok (.replaceFontUsage op ol np nl, { d with layers := ol, fontPage := op })
+  | .switchPalette om opal ol nm npal nl, d =>
+    .ok (.switchPalette om opal ol nm npal nl, { d with layers := ol, x := { d.x with palette := opal, paletteMode := om } })
+  | .setIceMode om ol nm nl, d => .ok (.setIceMode om ol nm nl, { d with layers := ol, x := { d.x with iceMode := om } })
+  | .reverseCaret px py _ _, d => .ok (.reverseCaret px py d.caretX d.caretY, { d with caretX := px, caretY := py })
+  | .reversed op, d =>
+    match op.redo d with
+    | .ok (op', d') => .ok (.reversed op', d')
+    | .error e => .error e
   | .atomic ops, d =>
     match undoList ops d with
     | .ok (ops', d') => .ok (.atomic ops', d')
@@ -474,6 +703,9 @@ inductive Step
   | act (build : Doc → Except Err (Option UndoOp))
   /-- changes outside the document state: caret, current layer, mirror mode -/
   | touch (f : Doc → Doc)
+  /-- `begin_atomic_undo` reached under a condition on the state, when nothing is recorded afterwards: the redo stack is
+      cleared, the guard closes without an entry -/
+  | clearRedo (p : Doc → Bool)
   | beginAtomic
   | endAtomic
   | undo
@@ -501,6 +733,7 @@ def Ed.step (floor : Nat) (ed : Ed) : Step → Except RunErr Ed
       | .ok ed' => .ok ed'
       | .error _ => .error .editFailed
   | .touch f => .ok { ed with doc := f ed.doc }
+  | .clearRedo p => .ok (if p ed.doc then { ed with redoStack := [] } else ed)
   | .beginAtomic => .ok ed.beginAtomic
   | .endAtomic => .ok ed.endAtomic
   | .undo =>
@@ -519,229 +752,5 @@ def Ed.run (floor : Nat) (ed : Ed) : List Step → Except RunErr Ed
     match ed.step floor s with
     | .ok ed' => ed'.run floor rest
     | .error e => .error e
-
-/-! ## the public editing operations (each returns the new editor state or the failure of the edit) -/
-
-def Ed.mapDoc (ed : Ed) (f : Doc → Doc) : Ed := { ed with doc := f ed.doc }
-
-/-- runs `body` inside `let _undo = self.begin_atomic_undo(..)`; the guard is dropped on every exit path -/
-def Ed.withGuard (ed : Ed) (body : Ed → Except Err Ed) : Except Err Ed :=
-  match body ed.beginAtomic with
-  | .ok ed' => .ok ed'.endAtomic
-  | .error e => .error e
-
-def Ed.curLayer (ed : Ed) : Option (Nat × LayerM) :=
-  match ed.doc.currentLayer with
-  | some i => match ed.doc.layers[i]? with
-    | some l => some (i, l)
-    | none => none
-  | none => none
-
-/-- `EditState::set_char` -/
-def apiSetChar (ed : Ed) (x y : Int) (c : Cell) : Except Err Ed :=
-  ed.withGuard fun ed =>
-    match ed.curLayer with
-    | none => .error .err
-    | some (i, l) =>
-      let old := l.getChar x y
-      let step1 : Except Err Ed :=
-        if ed.doc.mirror then
-          let mx := l.w - x - 1
-          ed.pushUndoAction (.setChar mx y i (l.getChar mx y) c)
-        else .ok ed
-      match step1 with
-      | .error e => .error e
-      | .ok ed1 => ed1.pushUndoAction (.setChar x y i old c)
-
-/-- `EditState::swap_char` -/
-def apiSwapChar (ed : Ed) (x1 y1 x2 y2 : Int) : Except Err Ed :=
-  match ed.doc.currentLayer with
-  | none => .error .err
-  | some i => ed.pushUndoAction (.swapChar i x1 y1 x2 y2)
-
-/-- the layer loop shared by `resize_buffer(true, ..)` and `crop_rect`; it reads the old layer at BUFFER coordinates
-    (`old_layer.get_char((x + new_rectangle.left(), ..))`) and writes through `set_char` (so a locked layer comes out
-    empty) — both copied as they are -/
-def cropLayers (layers : List LayerM) (rect : Rect) : List LayerM :=
-  layers.filterMap fun old =>
-    let nr := old.rect.intersect rect
-    if nr.isEmpty then none
-    else
-      let l0 : LayerM := { old with lines := [] }
-      let l1 := l0.setOffset (nr.x - rect.x) (nr.y - rect.y)
-      let l2 : LayerM := { l1 with w := nr.w, h := nr.h }
-      some ((intRange 0 nr.h).foldl (fun l y =>
-        (intRange 0 nr.w).foldl (fun l x => l.setChar x y (old.getChar (x + nr.x) (y + nr.y))) l) l2)
-
-
-/-! ### the operations whose records obey the inverse law at every document, as step lists
-
-Each public operation below is the list of primitive steps it performs (`push_undo_action` → `act`, `push_plain_undo`
-→ `edit`, bookkeeping of `current_layer`/caret → `touch`); parameters are those of the Rust function.  -/
-
-inductive Call
-  | setCaret (x y : Int)
-  | setCurrentLayer (i : Nat)
-  | setMirror (b : Bool)
-  | addLayer (layer : Nat)
-  | removeLayer (layer : Nat)
-  | raiseLayer (layer : Nat)
-  | lowerLayer (layer : Nat)
-  | duplicateLayer (layer : Nat)
-  | clearLayer (layer : Nat)
-  | toggleVisibility (layer : Nat)
-  | moveLayer (x y : Int)
-  | setLayerSize (layer : Nat) (w h : Int)
-  | resizeBuffer (w h : Int)
-  | resizeBufferLayers (w h : Int)
-  | cropRect (r : Rect)
-  | crop
-  | deleteRow
-  | insertRow
-  | deleteColumn
-  | insertColumn
-  | setSelection (r : Rect)
-  | clearSelection
-  | deselect
-  | beginAtomic
-  | endAtomic
-  | undo
-  | redo
-
-/-- record of an operation that needs the current layer (`get_current_layer()?`) -/
-def onCurrent (d : Doc) (mk : Nat → UndoOp) : Except Err (Option UndoOp) :=
-  match d.currentLayer with
-  | none => .error .err
-  | some i => .ok (some (mk i))
-
-/-- record of an operation that first checks `layer >= layers.len()` -/
-def onValid (d : Doc) (layer : Nat) (op : UndoOp) : Except Err (Option UndoOp) :=
-  if layer ≥ d.layers.length then .error .err else .ok (some op)
-
-def Call.steps : Call → List Step
-  | .setCaret x y => [.touch fun d => { d with caretX := x, caretY := y }]
-  | .setCurrentLayer i => [.touch fun d => { d with cur := min i (d.layers.length - 1) }]
-  | .setMirror b => [.touch fun d => { d with mirror := b }]
-  -- `add_new_layer`: a transparent layer of the buffer's size above `layer`, which becomes current
-  | .addLayer layer =>
-    [.act (fun d =>
-        match newLayer d.w d.h with
-        | .error e => .error e
-        | .ok l => .ok (some (.addLayer (min (layer + 1) d.layers.length) (some { l with props := { l.props with hasAlpha := true } })))),
-     .touch fun d => { d with cur := min (layer + 1) (d.layers.length - 1) }]
-  | .removeLayer layer => [.act fun d => onValid d layer (.removeLayer layer none)]
-  | .raiseLayer layer =>
-    [.act (fun d => if layer + 1 ≥ d.layers.length then .error .err else .ok (some (.raiseLayer layer))),
-     .touch fun d => { d with cur := layer + 1 }]
-  -- `lower_layer(0)` returns Ok without doing anything
-  | .lowerLayer layer =>
-    if layer = 0 then [] else
-    [.act (fun d => onValid d layer (.lowerLayer layer)), .touch fun d => { d with cur := layer - 1 }]
-  | .duplicateLayer layer =>
-    [.act (fun d => match d.layers[layer]? with
-        | none => .error .err
-        | some l => .ok (some (.addLayer (layer + 1) (some l)))),
-     .touch fun d => { d with cur := layer + 1 }]
-  -- `clear_layer` leaves `current_layer = layer + 1` (possibly past the end)
-  | .clearLayer layer => [.act (fun d => onValid d layer (.clearLayer layer [])), .touch fun d => { d with cur := layer + 1 }]
-  | .toggleVisibility layer => [.act fun d => onValid d layer (.toggleVisibility layer)]
-  -- `move_layer`: the record carries the UNCLAMPED `current_layer` but the offset of the clamped one; Ok(()) without layers
-  | .moveLayer x y =>
-    [.act fun d =>
-      match d.currentLayer with
-      | none => .ok none
-      | some i => match d.layers[i]? with
-        | none => .ok none
-        | some l => .ok (some (.moveLayer d.cur l.props.offX l.props.offY x y))]
-  | .setLayerSize layer w h => [.act fun d => onValid d layer (.setLayerSize layer w h w h)]
-  | .resizeBuffer w h => [.act fun d => .ok (some (.resizeBuffer d.w d.h w h))]
-  -- `resize_buffer(true, ..)`; `layers[0]` panics when no layer is left
-  | .resizeBufferLayers w h =>
-    [.edit fun d =>
-      match cropLayers d.layers ⟨0, 0, w, h⟩ with
-      | [] => .error .panic
-      | l0 :: rest =>
-        let l0' := if l0.w = d.w ∧ l0.h = d.h then { l0 with w := w, h := h } else l0
-        .ok (some (.crop d.w d.h w h d.layers, { d with w := w, h := h, layers := l0' :: rest }))]
-  | .cropRect r =>
-    [.edit fun d => .ok (some (.crop d.w d.h r.w r.h d.layers, { d with w := r.w, h := r.h, layers := cropLayers d.layers r }))]
-  | .crop =>
-    [.edit fun d =>
-      match d.sel with
-      | some s =>
-        let r := s.asSelRect
-        .ok (some (.crop d.w d.h r.w r.h d.layers, { d with w := r.w, h := r.h, layers := cropLayers d.layers r }))
-      | none => .ok none]
-  | .deleteRow => [.act fun d => onCurrent d fun i => .deleteRow i d.caretY []]
-  | .insertRow => [.act fun d => onCurrent d fun i => .insertRow i d.caretY []]
-  | .deleteColumn => [.act fun d => onCurrent d fun i => .deleteColumn i d.caretX []]
-  | .insertColumn => [.act fun d => onCurrent d fun i => .insertColumn i d.caretX]
-  -- selection (the selection mask is empty in the modelled fragment)
-  | .setSelection r => [.act fun d => if d.sel = some r then .ok none else .ok (some (.setSelection d.sel (some r)))]
-  | .clearSelection => [.act fun d => match d.sel with
-      | some s => .ok (some (.selectNothing (some s)))
-      | none => .ok none]
-  | .deselect => [.act fun d => match d.sel with
-      | some s => .ok (some (.deselect s))
-      | none => .ok none]
-  | .beginAtomic => [.beginAtomic]
-  | .endAtomic => [.endAtomic]
-  | .undo => [.undo]
-  | .redo => [.redo]
-
-/-- `get_area` of area_operations.rs -/
-def getArea (sel : Option Rect) (layer : Rect) : Rect :=
-  match sel with
-  | some s => (s.asSelRect.intersect layer).shift (-layer.x) (-layer.y)
-  | none => layer.shift (-layer.x) (-layer.y)
-
-/-- skeleton shared by the `UndoLayerChange`-based area operations: snapshot, edit through `f`, snapshot, record -/
-def areaOp (ed : Ed) (area : LayerM → Rect) (f : LayerM → Rect → LayerM) : Except Err Ed :=
-  ed.withGuard fun ed =>
-    match ed.curLayer with
-    | none => .error .err
-    | some (i, l) =>
-      let a := area l
-      match fromLayer l a with
-      | .error e => .error e
-      | .ok old =>
-        let l' := f l a
-        match fromLayer l' a with
-        | .error e => .error e
-        | .ok new => .ok (({ ed with doc := ed.doc.setLayer i l' } : Ed).pushPlainUndo (.layerChange i a.x a.y old new))
-
-/-- `flip_x` (characters without a mirror glyph in the font stay as they are; the driver only uses such characters) -/
-def apiFlipX (ed : Ed) : Except Err Ed :=
-  areaOp ed (fun l => getArea ed.doc.sel l.rect) fun l a =>
-    (intRange a.y a.bottom).foldl (fun l y =>
-      (intRange 0 (a.w / 2)).foldl (fun l x =>
-        let c1 := l.getChar (a.x + x) y
-        let c2 := l.getChar (a.right - x - 1) y
-        (l.setChar (a.x + x) y c2).setChar (a.right - x - 1) y c1) l) l
-
-/-- `flip_y` -/
-def apiFlipY (ed : Ed) : Except Err Ed :=
-  areaOp ed (fun l => getArea ed.doc.sel l.rect) fun l a =>
-    (intRange a.x a.right).foldl (fun l x =>
-      (intRange 0 (a.h / 2)).foldl (fun l y =>
-        let c1 := l.getChar x (a.y + y)
-        let c2 := l.getChar x (a.bottom - 1 - y)
-        (l.setChar x (a.y + y) c2).setChar x (a.bottom - 1 - y) c1) l) l
-
-/-- `make_layer_transparent` (after `fix: make_layer_transparent/stamp_layer_down record the clamped current layer`) -/
-def apiMakeTransparent (ed : Ed) : Except Err Ed :=
-  areaOp ed (fun l => ⟨0, 0, l.w, l.h⟩) fun l _ =>
-    (intRange 0 l.w).foldl (fun l x =>
-      (intRange 0 l.h).foldl (fun l y => if (l.getChar x y).isTransparent then l.setChar x y Cell.invisible else l) l) l
-
-/-- `scroll_area_up/down`, whole-layer case only (`area.width >= layer.width`); `none` = the partial case, not modelled -/
-def apiScroll (ed : Ed) (up : Bool) : Option (Except Err Ed) :=
-  match ed.curLayer with
-  | none => some (.error .err)
-  | some (i, l) =>
-    let a := getArea ed.doc.sel l.rect
-    if a.isEmpty then some (.ok ({ ed with redoStack := [] }))
-    else if a.w ≥ l.w then some (ed.withGuard fun ed => ed.pushUndoAction (if up then .scrollUp i else .scrollDown i))
-    else none
 
 end IcyVerif.Undo
